@@ -31,6 +31,9 @@ structure Tree where
   byData : List (DataId × List NodeId) := []
   /-- `calc_data_id` hook as a table atom ↦ id (`none` = the hook raises); `none` = default `hash(data)`. -/
   hook : Option (List (Nat × Option DataId)) := none
+  /-- the system root's `_children` attribute is `None` (it starts as `[]` and becomes `None`
+  whenever the last top-level node is taken away); only consulted while the root has no children. -/
+  rootNone : Bool := false
 deriving Repr, Inhabited
 
 /-! ### primitives on the tree value -/
@@ -113,15 +116,19 @@ def Tree.unregisterAll (t : Tree) (ns : List T) : Tree :=
 /-- `before` validated against the target's current children: the insert position.
 (`before is True` has already been mapped to index 0.)  Errors: a `before` node that is not a
 child of the target → ValueError; on a leaf target the `assert before in (None, True, int, False)`. -/
-def insertPosition (ks : List T) (before : Before) : Except Err (List T → T → List T) :=
+def insertPosition (ks : List T) (isNone : Bool) (before : Before) : Except Err (List T → T → List T) :=
   match before with
   | .node b => if ks.any (fun k => k.id == b) then .ok (fun l x => l.take (idxOf b l) ++ x :: l.drop (idxOf b l))
                else .error .value
   | .none | .bFalse => .ok (fun l x => l ++ [x])
   | .bTrue => .ok (fun l x => x :: l)
   | .idx i =>
-    if ks.isEmpty then (if i = 0 ∨ i = 1 then .ok (fun l x => l ++ [x]) else .error .assertion)
+    if isNone then (if i = 0 ∨ i = 1 then .ok (fun l x => l ++ [x]) else .error .assertion)
     else .ok (fun l x => pyInsert i x l)
+
+/-- `self._children is None` for the node `p` with identity `parent`. -/
+def Tree.childrenNone (t : Tree) (parent : NodeId) (p : T) : Bool :=
+  p.kids.isEmpty && (parent != 0 || t.rootNone)
 
 /-- `Node.add_child(data, before=, data_id=)` / `TypedNode.add_child(data, kind=, …)`:
 creates node `next`.  Order: validate `before`, compute the id (hook may raise), register
@@ -131,7 +138,7 @@ def Tree.addData (t : Tree) (next : NodeId) (parent : NodeId) (a : Atom) (before
   match findT parent t.root with
   | none => .error .other
   | some p =>
-    match insertPosition p.kids before with
+    match insertPosition p.kids (t.childrenNone parent p) before with
     | .error e => .error e
     | .ok ins =>
       match (match did? with | some d => Except.ok d | none => t.calcId a) with
@@ -204,14 +211,15 @@ def Tree.removeChildren (t : Tree) (n : NodeId) : Tree :=
   | none => t
   | some x =>
     let t1 := t.unregisterAll (iterPost x)
-    { t1 with root := modT n (fun _ => []) t1.root }
+    { t1 with root := modT n (fun _ => []) t1.root, rootNone := t1.rootNone || n == 0 }
 
 /-- plain `remove()` of one node (no keep_children, no clones). -/
 def Tree.removeOne (t : Tree) (n : NodeId) : Tree :=
   match findT n t.root, t.parentId n with
   | some x, some p =>
     let t1 := t.removeChildren n
-    let t2 := { t1 with root := modT p (eraseId n) t1.root }
+    let root2 := modT p (eraseId n) t1.root
+    let t2 := { t1 with root := root2, rootNone := t1.rootNone || (p == 0 && root2.kids.isEmpty) }
     t2.unregister n x.did
   | _, _ => t
 
@@ -231,16 +239,17 @@ def Tree.moveTo (t : Tree) (n : NodeId) (newParent : NodeId) (before : Before) :
       let rest := eraseId n np.kids          -- the target's children once `n` is detached
       let before := if before = .bTrue then Before.idx 0 else before
       match (match before with
-             | .node b => if b = n then Except.error Err.value else insertPosition rest before
+             | .node b => if b = n then Except.error Err.value else insertPosition rest false before
              | .idx i => if rest.isEmpty then (if i = 0 ∨ i = 1 then Except.ok (fun l x => l ++ [x]) else .error .assertion)
                          else .ok (fun l x => pyInsert i x l)
-             | b => insertPosition rest b) with
+             | b => insertPosition rest false b) with
       | .error e => .error e
       | .ok ins =>
         if oldP != newParent && rest.any (fun k => k.did == x.did) then .error .unique
         else
           let r1 := modT oldP (eraseId n) t.root
-          .ok { t with root := modT newParent (fun l => ins l x) r1 }
+          .ok { t with root := modT newParent (fun l => ins l x) r1,
+                       rootNone := t.rootNone || (oldP == 0 && r1.kids.isEmpty) }
   | _, _, _ => .error .other
 
 /-- `Node.remove(keep_children=True)` for one node: children are moved before the node (in
@@ -252,7 +261,6 @@ def Tree.removeKeep (t : Tree) (n : NodeId) : Except Err Tree :=
     | none => .error .other
     | some par =>
       if x.kids.isEmpty then .ok (t.removeOne n)
-      else if t.typed then .error .notImplemented
       else if x.kids.any (fun c => par.kids.any fun s => s.id != n && s.did == c.did) then .error .unique
       else
         let splice := fun (l : List T) => l.take (idxOf n l) ++ x.kids ++ l.drop (idxOf n l + 1)
@@ -271,7 +279,7 @@ def Tree.remove (t : Tree) (n : NodeId) (keepChildren withClones : Bool) : Tree 
       match acc with
       | (t, some e) => (t, some e)
       | (t, none) =>
-        if (findT c t.root).isNone then (t, some .other)      -- already removed with an ancestor clone
+        if (findT c t.root).isNone then (t, none)             -- already removed as descendant of another clone
         else if keepChildren then
           match t.removeKeep c with
           | .ok t1 => (t1, none)
